@@ -51,7 +51,7 @@ class SmoothMagFn(torch.autograd.Function):
     @staticmethod
     def forward(ctx, x, y, b):
         r = torch.sqrt(x**2 + y**2 + b**2)
-        if x.requires_grad:
+        if x.requires_grad or y.requires_grad:
             dx = x/r
             dy = y/r
             ctx.save_for_backward(dx, dy)
@@ -60,8 +60,8 @@ class SmoothMagFn(torch.autograd.Function):
 
     @staticmethod
     def backward(ctx, dr):
-        dx = None
-        if ctx.needs_input_grad[0]:
+        dx, dy = None, None
+        if ctx.needs_input_grad[0] or ctx.needs_input_grad[1]:
             drdx, drdy = ctx.saved_tensors
             dx = drdx * dr
             dy = drdy * dr
